@@ -279,6 +279,7 @@ func rulesC19(c *Ctx) {
 	recursionC19(c)
 	freshListC19(c)
 	noFreshErrorRule(c, "C19.noerror", "RequiredPrivileges")
+	appendOnlyRule(c, "C19.appendonly", "RequiredPrivileges")
 	c.Rule("C19.pure", "RequiredPrivileges of a statement and of its sources (and everything they call in the package) read no mutable package-level state: the privileges required are those of the statement as it is now, not those computed for it earlier (a memo keyed by node goes stale when the default database is filled in)")
 	pureRule(c, "C19.pure", "Sources.RequiredPrivileges", "SelectStatement.RequiredPrivileges", "ExplainStatement.RequiredPrivileges")
 }
